@@ -181,6 +181,27 @@ def seeded_for(prop: str):
     return out
 
 
+def twins_for(prop: str):
+    """Independently written behaviour-preserving patches (committed under /verif/twins)
+    this property's check is on record as silent for."""
+    base = os.path.join(os.path.dirname(os.path.dirname(os.path.dirname(
+        os.path.abspath(__file__)))), "twins")
+    out = []
+    if not os.path.isdir(base):
+        return out
+    for d in sorted(os.listdir(base)):
+        mp = os.path.join(base, d, "meta.json")
+        pp = os.path.join(base, d, "patch.diff")
+        if os.path.isfile(mp) and os.path.isfile(pp):
+            try:
+                meta = json.load(open(mp))
+            except Exception:
+                continue
+            if prop in meta.get("silent_for", []):
+                out.append(("twin_" + d, pp))
+    return out
+
+
 def variants_for(prop: str) -> list[Variant]:
     try:
         mod = importlib.import_module(f"lsa.selftest.v_{prop.lower()}")
@@ -197,7 +218,7 @@ def run_selftest(prop: str, repo_root: str, jobs: int = 16, verbose: bool = Fals
     summary = {"mutants": 0, "detected": 0, "twins": 0, "silent": 0,
                "skipped_site_not_found": 0, "failures": [], "details": {},
                "seeded_changes": len(seeded_for(prop))}
-    if not variants and not seeded_for(prop):
+    if not variants and not seeded_for(prop) and not twins_for(prop):
         return summary
     base = "/dev/shm" if os.path.isdir("/dev/shm") and os.access("/dev/shm", os.W_OK) \
         else tempfile.gettempdir()
@@ -235,6 +256,21 @@ def run_selftest(prop: str, repo_root: str, jobs: int = 16, verbose: bool = Fals
             variants.append(Variant(sid, "M", "", "", None, None,
                                     note="independently seeded change (see seeded/)"))
             tasks.append((prop, sid, root))
+        for tid, patch in twins_for(prop):
+            if only and only != tid:
+                continue
+            root = os.path.join(scratch, tid)
+            shutil.copytree(os.path.join(repo_root, "liesel"), os.path.join(root, "liesel"),
+                            ignore=shutil.ignore_patterns("__pycache__"))
+            r = subprocess.run(["git", "apply", "-p1", patch], cwd=root,
+                               capture_output=True, text=True)
+            if r.returncode != 0:
+                summary["skipped_site_not_found"] += 1
+                summary["details"][tid] = "skipped (patch does not apply to this tree)"
+                continue
+            variants.append(Variant(tid, "T", "", "", None, None,
+                                    note="independent behaviour-preserving change (see twins/)"))
+            tasks.append((prop, tid, root))
         by_id = {v.vid: v for v in variants}
         with ProcessPoolExecutor(max_workers=max(1, min(jobs, len(tasks) or 1))) as ex:
             for vid, status, msgs in ex.map(_run_one, tasks):
